@@ -43,7 +43,7 @@ THEOREMS = [
     "warm_fetches_nothing", "second_client_fetches_nothing", "other_policy_no_cache",
     "options_reattached", "options_reattached_partial", "reattach_schema_import_refuted",
     "wrapped_follows_options", "wrapped_follows_options_partial", "wrapped_stale_refuted",
-    "toy_format_ok",
+    "toy_format_ok", "mem_options_reattached", "mem_warm_fetches_nothing",
     "interleaved_gets_safe", "interleaving_needs_format_refuted", "mixture_rejecting_format_exists",
 ]
 
@@ -755,7 +755,17 @@ OPTSETS = {
     "loc": {"location": "http://elsewhere.invalid/e", "port": "P2"},
     "retxml": {"retxml": True, "unwrap": False},
     "nofaults": {"faults": False, "prefixes": True, "extraArgumentErrors": False},
+    "hdr": {"soapheaders": "<fresh element per client>", "xstq": False},
+    "noprefix": {"prefixes": False, "unwrap": False},
 }
+
+
+def optset(name):
+    kw = dict(OPTSETS[name])
+    if "soapheaders" in kw:
+        import suds.sax.element
+        kw["soapheaders"] = (suds.sax.element.Element("auth", ns=("h", "urn:hdr")).setText("token-1"),)
+    return kw
 
 
 def opt_unwrap(name):
@@ -849,16 +859,21 @@ def listing(location):
         return []
 
 
-def build_client(member, location, kind, dur, pol, optname, world_fault=None):
+def build_client(member, location, kind, dur, pol, optname, world_fault=None, cache_obj=None):
     """-> dict(outcome, fetched, transport, fp, wrapped, reply_cached, exc)"""
     import suds.client
     docs, ops, style, tns_types = member
     log = FetchLog()
     sent = []
     cachelog = []
-    kwargs = dict(OPTSETS[optname])
+    kwargs = optset(optname)
     kwargs.update(documentStore=make_store(docs, log), transport=invoking_transport(log, style, tns_types, sent))
-    if kind is None:
+    if cache_obj is not None:
+        kwargs["cache"] = cache_obj
+        kwargs["cachingpolicy"] = pol
+        cachelog = cache_obj.log
+        location = "/nonexistent"
+    elif kind is None:
         kwargs["cache"] = None
     elif kind == "default":
         kwargs["cachingpolicy"] = pol        # no cache argument: Client.__init__ picks ObjectCache(days=1)
@@ -875,6 +890,7 @@ def build_client(member, location, kind, dur, pol, optname, world_fault=None):
         r["transport"] = log.transport > 0
         return r
     r["client"] = client
+    r["refingerprint"] = lambda: behaviour(client, member, sent)
     r["fetched"] = list(map(str, log.urls))
     try:
         cur = client.wsdl.options is client.options
@@ -948,6 +964,7 @@ def run_scenario(member, sc, location, refs):
                 obs["ref_wrapped"] = refs[optname]["wrapped"]
                 obs["fp_same"] = obs["fp"] is not None and obs["fp"] == refs[optname]["fp"]
                 obs.pop("client", None)
+                obs.pop("refingerprint", None)
             elif op[0] == "plant":
                 p = os.path.join(location, op[1])
                 try:
@@ -1288,7 +1305,7 @@ def strip_obs(observed):
     out = []
     for obs, lst in observed:
         if obs is not None:
-            obs = dict((k, v) for k, v in obs.items() if k not in ("fp", "client"))
+            obs = dict((k, v) for k, v in obs.items() if k not in ("fp", "client", "refingerprint"))
         out.append([obs, lst])
     return out
 
@@ -1378,6 +1395,151 @@ def check_clients(ck, version):
                                                    "same_as_uncached": o["fp_same"]} for o, _ in keep[i][2]]})
     res = ck.run_cases("clients", CPRE, "ccase", terms, ["c11_client_agrees", "c11_client_spec_ok"], shard=60)
     return keep, set(res["c11_client_agrees"]), set(res["c11_client_spec_ok"])
+
+
+# ---- a cache that hands back live objects (user-defined in-memory Cache subclass)
+
+MPRE = "From SV Require Import Lib.Base C11.Model C11.Reader C11.MemReader."
+
+
+def mem_cache():
+    import suds.cache
+
+    class MemoryCache(suds.cache.Cache):
+        """get returns the very object that was put (like the MockCache of suds' own tests)"""
+
+        def __init__(self):
+            self.data = {}
+            self.log = []
+
+        def get(self, id):
+            self.log.append(("get", id))
+            return self.data.get(id)
+
+        def put(self, id, obj):
+            self.log.append(("put", id))
+            self.data[id] = obj
+
+        def purge(self, id):
+            self.data.pop(id, None)
+
+        def clear(self):
+            self.data.clear()
+    return MemoryCache()
+
+
+def run_mem_scenario(member, clients, refs):
+    """clients: [(policy, optname)...] built one after the other over ONE cache instance.
+    -> (per client observation, still_own flags after all were built, later-behaviour flags)"""
+    cache = mem_cache()
+    out = []
+    for pol, optname in clients:
+        if optname not in refs:
+            refs[optname] = build_client(member, None, None, 0, 0, optname)
+        obs = build_client(member, None, "mem", 0, pol, optname, cache_obj=cache)
+        obs["ref_wrapped"] = refs[optname]["wrapped"]
+        obs["fp_same"] = obs["fp"] is not None and obs["fp"] == refs[optname]["fp"]
+        out.append(obs)
+    still_own, later_same = [], []
+    for (pol, optname), obs in zip(clients, out):
+        c = obs.get("client")
+        try:
+            still_own.append(c is not None and c.wsdl.options is c.options)
+        except Exception:
+            still_own.append(False)
+        # informational: does the earlier client still behave per its own options now?
+        try:
+            later_same.append(c is not None and obs["refingerprint"]() == refs[optname]["fp"])
+        except Exception:
+            later_same.append(False)
+    for obs in out:
+        obs.pop("client", None)
+        obs.pop("refingerprint", None)
+    return out, still_own, later_same
+
+
+def mem_bad_observations(clients, observed):
+    """Replicates MemReader.v mspec_run."""
+    seen = set()
+    bad = []
+    for idx, ((pol, optname), obs) in enumerate(zip(clients, observed)):
+        reasons = []
+        if obs["exc"] is not None:
+            reasons.append("raise")
+        else:
+            if not obs["options_current"]:
+                reasons.append("options")
+            if obs["wrapped"] != obs["ref_wrapped"]:
+                reasons.append("wrapped")
+            if not obs["fp_same"]:
+                reasons.append("behaviour")
+        if obs["transport"]:
+            reasons.append("transport")
+        if pol in seen and pol in (0, 1) and obs["fetched"]:
+            reasons.append("fetch")
+        if reasons:
+            bad.append((idx, reasons))
+        seen.add(pol)
+    return bad
+
+
+def c_mobs(obs, ids):
+    fetched = clist([cN(ids.get(u, 999)) for u in obs["fetched"]], "N")
+    if obs["exc"] is not None:
+        return "(mkmobs %s %s CRaise false false)" % (fetched, cbool(obs["transport"]))
+    return "(mkmobs %s %s (COk %s %s) %s %s)" % (fetched, cbool(obs["transport"]), cbool(obs["options_current"]),
+                                                 cbool(obs["wrapped"]), cbool(obs["ref_wrapped"]),
+                                                 cbool(obs["fp_same"]))
+
+
+def gen_mem_scenarios(ck, imps):
+    rng = ck.rng
+    names = sorted(OPTSETS)
+    live_docs_ok = False not in imps      # see the note on grafted schema documents
+    scs = []
+
+    def opts(n):
+        chosen = rng.sample(names, n)
+        if all(opt_unwrap(o) == opt_unwrap(chosen[0]) for o in chosen):
+            chosen[1] = "nounwrap" if opt_unwrap(chosen[0]) else "base"
+        return chosen
+    scs.append([(1, o) for o in opts(4)])
+    if live_docs_ok:
+        scs.append([(0, o) for o in opts(3)])
+    pols = [1, 1, 2] + ([0, 0] if live_docs_ok else [])
+    scs.append([(rng.choice(pols), o) for o in opts(4 if ck.tier != "thorough" else 6)])
+    return scs
+
+
+def check_mem_clients(ck):
+    terms, keep = [], []
+    for (shape, nops, style) in scenario_members(ck):
+        docs, ops, tns_types = family_member(shape, nops, style, extra=ck.rng.randrange(3))
+        member = (docs, ops, style, tns_types)
+        ref, urls, ids, md5, imps, opened = url_table(member)
+        docstyle = build_client(member, None, None, 0, 0, "base")["wrapped"]
+        refs = {}
+        for clients in gen_mem_scenarios(ck, imps):
+            observed, still_own, later_same = run_mem_scenario(member, clients, refs)
+            terms.append("(mkmcase %s %s %s %s %s)" % (
+                clist(["(%s, %s)" % (cN(ids[u]), cstr(md5[u])) for u in urls], "N * str"),
+                c_world(ids, urls, imps, opened, docstyle),
+                clist(["(%s, %s)" % (cN(p), cbool(opt_unwrap(o))) for p, o in clients], "N * bool"),
+                clist([c_mobs(o, ids) for o in observed], "mobs"),
+                clist([cbool(b) for b in still_own], "bool")))
+            bad = mem_bad_observations(clients, observed)
+            keep.append(((shape, nops, style), clients, observed, still_own, bad))
+            ck.seen(("mem", shape, nops, style, tuple(clients)),
+                    nontrivial=any(o["exc"] is None and not o["fetched"] for o in observed))
+            ck.count("mem-scenario")
+            for (pol, optname), o in zip(clients, observed):
+                ck.count("mem-client:policy%d:%s" % (pol, "raised" if o["exc"] else "fetched" if o["fetched"]
+                                                    else "nothing-fetched"))
+            for (pol, optname), own, same in list(zip(clients, still_own, later_same))[:-1]:
+                ck.count("mem-earlier-client-afterwards:%s" % ("own options and behaviour" if own and same else
+                                                               "options of a later client (shared object)"))
+    res = ck.run_cases("mem", MPRE, "mcase", terms, ["c11_mem_agrees", "c11_mem_spec_ok"], shard=80)
+    return keep, set(res["c11_mem_agrees"]), set(res["c11_mem_spec_ok"])
 
 
 # ---- real processes (thorough tier)
@@ -1508,6 +1670,12 @@ def _run(ck, version):
         "writes through it (hist_ok); a FileCache given to Client(cache=...) is outside the check",
         "a foreign writer (other suds version) is followed by new cache instances (the version stamp is only "
         "checked by FileCache.__init__); live instances are not protected and the theorem does not claim it",
+        "a cache handing back live objects (in-memory Cache subclass): under cachingpolicy=1 all clients share "
+        "ONE Definitions object, so an earlier client follows the options of the latest one afterwards "
+        "(coverage.distribution mem-earlier-client-afterwards; modelled by still_own, not flagged); under "
+        "cachingpolicy=0 the loader grafts an imported schema document into the live cached WSDL tree, so a later "
+        "client over a WSDL with a wsdl:import of a schema sees extra types -- such worlds are not driven with "
+        "live documents (not flagged)",
         "FileCache.__init__ raises when the location cannot be created/listed; clear() raises when another "
         "process removes a listed file first: neither is a lookup, not flagged",
     ]
@@ -1583,6 +1751,26 @@ def _run(ck, version):
         unproved.append(("client scenarios: family_member%r, %s" % (tuple(memberid), sc),
                          {"kind": "scenario", "member": list(memberid), "scenario": sc,
                           "observed": strip_obs(observed)}))
+    # 3b. several clients over one cache instance that hands back live objects
+    mkeep, m_model, m_spec = check_mem_clients(ck)
+    py_bad = set(i for i, kp in enumerate(mkeep) if kp[4])
+    if py_bad != m_spec:
+        raise RuntimeError("harness and Coq disagree about which in-memory-cache scenarios meet the "
+                           "specification: %r" % sorted(py_bad ^ m_spec)[:5])
+    for i in sorted(m_spec, key=lambda i: len(mkeep[i][1]))[:3]:
+        memberid, clients, observed, still_own, bad = mkeep[i]
+        idx, reasons = bad[0]
+        key, what = GENERIC[reasons[0]]
+        ck.failing_input(key, "%s: documents family_member%r, clients (cachingpolicy, options) %s built one "
+                         "after the other over ONE in-memory cache instance that returns the stored objects "
+                         "themselves; client #%d (%s)" % (what, tuple(memberid), clients, idx, ",".join(reasons)),
+                         {"kind": "mem-scenario", "member": list(memberid), "clients": [list(c) for c in clients],
+                          "observed": strip_obs([(o, []) for o in observed]), "bad": [list(b) for b in bad]})
+    if m_model - m_spec:
+        memberid, clients, observed, still_own, bad = mkeep[sorted(m_model - m_spec)[0]]
+        unproved.append(("clients over an in-memory cache: family_member%r, %s" % (tuple(memberid), clients),
+                         {"kind": "mem-scenario", "member": list(memberid), "clients": [list(c) for c in clients],
+                          "observed": strip_obs([(o, []) for o in observed]), "still_own": still_own}))
     ck.extra["scenarios_failing_the_specification"] = len(c_spec)
 
     ck.extra["phase_seconds"]["clients"] = round(__import__("time").time() - ck.t0, 1)
@@ -1656,6 +1844,17 @@ def replay(ck, payload):
                               obs["fetched"], obs["exc"], obs["options_current"], obs["wrapped"], obs["ref_wrapped"],
                               obs["fp_same"], obs["reply_cached"]))
                 print("      directory: %s" % lst)
+        elif kind == "mem-scenario":
+            shape, nops, style = payload["member"]
+            docs, ops, tns_types = family_member(shape, nops, style)
+            clients = [tuple(c) for c in payload["clients"]]
+            observed, still_own, later = run_mem_scenario((docs, ops, style, tns_types), clients, {})
+            for c, obs, own in zip(clients, observed, still_own):
+                print("  Client(cache=<in-memory>, cachingpolicy=%d, %s)" % (c[0], OPTSETS[c[1]]))
+                print("      fetched %s; raised %s; own options attached %s; wrapped %s (uncached: %s); behaves like "
+                      "the uncached client: %s; own options still attached at the end: %s" % (
+                          obs["fetched"], obs["exc"], obs["options_current"], obs["wrapped"], obs["ref_wrapped"],
+                          obs["fp_same"], own))
         elif kind == "sweep":
             import suds.cache
             shape, nops, style = payload["member"]
